@@ -51,6 +51,31 @@ func (f *TMemoryOutputBuffer) Write(buf []byte) (int, error) {
 	return f.TMemoryBuffer.Write(buf)
 }
 
+// WriteString appends a string if the buffer has enough space. The Thrift
+// protocols write strings (and single bytes, see WriteByte) through these
+// methods rather than Write when the transport offers them, so the limit has
+// to be enforced here as well.
+func (f *TMemoryOutputBuffer) WriteString(s string) (int, error) {
+	if f.limit > 0 && uint(len(s)+f.Len()) > f.limit {
+		f.Reset()
+		return 0, thrift.NewTTransportException(
+			TRANSPORT_EXCEPTION_REQUEST_TOO_LARGE,
+			fmt.Sprintf("Buffer size reached (%d)", f.limit))
+	}
+	return f.TMemoryBuffer.WriteString(s)
+}
+
+// WriteByte appends a byte if the buffer has enough space.
+func (f *TMemoryOutputBuffer) WriteByte(c byte) error {
+	if f.limit > 0 && uint(1+f.Len()) > f.limit {
+		f.Reset()
+		return thrift.NewTTransportException(
+			TRANSPORT_EXCEPTION_REQUEST_TOO_LARGE,
+			fmt.Sprintf("Buffer size reached (%d)", f.limit))
+	}
+	return f.TMemoryBuffer.WriteByte(c)
+}
+
 // Reset clears the buffer
 func (f *TMemoryOutputBuffer) Reset() {
 	f.TMemoryBuffer.Reset()
